@@ -326,6 +326,8 @@ def _concretise(t):
 
 def _fam_of_repr(r):
     r = r.replace("const ", "")
+    if r.startswith("List["):
+        return "List[" + _fam_of_repr(r[5:-1]) + "]"
     if r.startswith(("Int", "UInt")):
         return "int"
     if r.startswith(("Float", "Decimal")):
